@@ -555,7 +555,9 @@ func (root *Root) resolveField(
 					nv = av.Value
 				}
 				name, _ := nv.(string)
-				t = root.GetType(name)
+				// Types only. GetType also finds directives, which have no
+				// __Type.
+				t = root.types.get(name)
 				if t != nil {
 					fv, ea2 = root.resolve(t, vars, field, root.GetType("__Type"), depth)
 					ea = append(ea, ea2...)
